@@ -5,10 +5,8 @@ cat = {m['id']: m for m in json.load(open('/verif/mutants/catalogue.json'))}
 m = cat[sys.argv[1]]
 tmp = tempfile.mkdtemp(prefix='verif_ms_')
 try:
-    for d in ('flumine', 'tests'):
-        shutil.copytree('/repo/' + d, tmp + '/' + d, ignore=shutil.ignore_patterns('__pycache__'))
-    for f in ('pyproject.toml', 'README.md', 'requirements.txt'):
-        if os.path.exists('/repo/' + f): shutil.copy('/repo/' + f, tmp)
+    shutil.rmtree(tmp)
+    shutil.copytree('/repo', tmp, ignore=shutil.ignore_patterns('__pycache__', '.git'))
     p = os.path.join(tmp, m['file']); s = open(p).read(); assert s.count(m['old']) == 1, s.count(m['old'])
     open(p, 'w').write(s.replace(m['old'], m['new']))
     r = subprocess.run(['/verif/tools/suite.py', tmp], stdout=subprocess.PIPE, text=True)
